@@ -48,6 +48,16 @@ def const_val(k):
         return k["str"]
     if "bytes" in k:
         return bytes(k["bytes"])
+    sv = k.get("s", "")
+    if sv.startswith("const "):
+        sv = sv[6:]
+    if len(sv) >= 2 and sv[0] == '"' and sv[-1] == '"' and "def" not in k:
+        # a string literal the compiler keeps as a type-level constant (match patterns)
+        import json as _json
+        try:
+            return _json.loads(sv)
+        except ValueError:
+            return None
     return None
 
 
